@@ -486,4 +486,7 @@ def run(prog, rep, tier, snap):
     r05_4b(prog, rep)
     rep.rule("R05.5", "every freed/cloned sub-stream is serialised", 3)
     r05_5(prog, rep)
+    from ..rules import valist
+    rep.rule("R05.6", "the buffered writer never formats from a consumed va_list (records larger than the write buffer)", 1)
+    valist.r_valist(prog, rep, "R05.6", only=("fdprintf",))
 READY = True
